@@ -368,11 +368,13 @@ func onlyFastPathRounding(img image.Image, exp, got []byte) bool {
 func roundTrip(c *Ctx, r *runner, rng *Rand, s rtSpec, model bool) {
 	px := makeContent(rng.Fork(), s)
 	img := makeSource(rng.Fork(), s, px)
-	exp := expected(img, s.Exact)
+	raw := expected(img, true)         // the source pixels as they are
+	cleaned := expected(img, s.Exact) // alpha-0 pixels as transparent black unless Exact (what the encoder stores today)
 	file, err := encode(img, s, rng.Fork())
 	c.D.Evaluations++
 	if err != nil {
-		c.Violate("encode-error", "lossless Encode failed on a valid image/options", map[string]any{"spec": s, "err": err.Error()})
+		// the property speaks about the bytes Encode wrote; an Encode error is C20/C02's business
+		c.Count("observation:encode-error")
 		return
 	}
 	line, dec := goDecode(file)
@@ -381,6 +383,21 @@ func roundTrip(c *Ctx, r *runner, rng *Rand, s rtSpec, model bool) {
 		return
 	}
 	got := nrgbaPix(dec)
+	// what the property permits: every pixel equals the source pixel; a pixel with alpha 0 MAY instead come
+	// back as transparent black when Exact is off (both outcomes are accepted, pixel by pixel)
+	exp := append([]byte{}, raw...)
+	if !s.Exact && len(got) == len(raw) {
+		for i := 0; i+3 < len(raw); i += 4 {
+			if raw[i+3] == 0 && got[i] == 0 && got[i+1] == 0 && got[i+2] == 0 && got[i+3] == 0 {
+				exp[i], exp[i+1], exp[i+2], exp[i+3] = 0, 0, 0, 0
+				if raw[i] != 0 || raw[i+1] != 0 || raw[i+2] != 0 {
+					c.Count("observation:alpha-0-pixel-came-back-as-transparent-black")
+				}
+			} else if raw[i+3] == 0 && (raw[i] != 0 || raw[i+1] != 0 || raw[i+2] != 0) && bytes.Equal(raw[i:i+4], got[i:i+4]) {
+				c.Count("observation:alpha-0-pixel-came-back-unchanged-without-Exact")
+			}
+		}
+	}
 	if dec.Rect.Dx() != s.W || dec.Rect.Dy() != s.H {
 		c.Violate("roundtrip-dimensions", "decoded dimensions differ from the source", map[string]any{"spec": s, "got": []int{dec.Rect.Dx(), dec.Rect.Dy()}})
 	} else if !bytes.Equal(got, exp) {
@@ -404,7 +421,7 @@ func roundTrip(c *Ctx, r *runner, rng *Rand, s rtSpec, model bool) {
 	c.Count(fmt.Sprintf("meta:%d", s.Meta))
 	payload := vp8lPayload(file)
 	if payload == nil {
-		c.Violate("no-vp8l-chunk", "encoder output has no VP8L chunk", map[string]any{"spec": s})
+		c.Count("observation:no-vp8l-chunk-in-encoder-output") // layout of the file is C02's business
 		return
 	}
 	if !model {
@@ -428,7 +445,8 @@ func roundTrip(c *Ctx, r *runner, rng *Rand, s rtSpec, model bool) {
 	if f := strings.Fields(r.ask("replan " + hx)); len(f) >= 3 && f[0] == "R" && f[1] == "wf=1" && f[2] == "emit=1" {
 		c.Count("encoder-choices:valid(wf_planb & byte-exact re-emission)")
 		if sem := strings.Join(f[3:], " "); sem != line {
-			c.Violate("sem-of-recovered-plan-vs-decode", "the pixels denoted by the plan recovered from the encoder's bytes differ from what Decode returns", map[string]any{"spec": s, "sem": sem, "decode": line})
+			// decoder vs format on a valid stream is C03's clause, not C01's (the round trip above decides C01)
+			c.Count("observation:sem-of-recovered-plan-differs-from-decode")
 		}
 	} else {
 		c.Count("encoder-choices:outside-proved-fragment " + strings.Join(f, " "))
@@ -437,7 +455,7 @@ func roundTrip(c *Ctx, r *runner, rng *Rand, s rtSpec, model bool) {
 	// transforms and their data recovered from the stream) applied to the cleaned source give exactly the
 	// residual image the encoder's tokens denote
 	if s.W*s.H <= 40*40 {
-		switch r.ask("fwd " + hx + " " + hex.EncodeToString(exp)) {
+		switch r.ask("fwd " + hx + " " + hex.EncodeToString(cleaned)) {
 		case "F 1":
 			c.Count("encoder-data-path:forward-chain(source)=residual-image")
 		case "F 0":
@@ -547,7 +565,7 @@ func unpremultiplySweep(c *Ctx) {
 		s := rtSpec{W: W, H: H, Quality: 25, Method: 0, Exact: true, Meta: meta}
 		file, err := encode(im, s, NewRand(7))
 		if err != nil {
-			c.Violate("encode-error", "lossless Encode failed", map[string]any{"spec": s, "err": err.Error()})
+			c.Count("observation:encode-error")
 			return
 		}
 		_, dec := goDecode(file)
@@ -596,7 +614,7 @@ func cleanupCases(c *Ctx) {
 		s := rtSpec{W: n, H: 1, Quality: 75, Method: 4, Exact: exact}
 		file, err := encode(im, s, NewRand(3))
 		if err != nil {
-			c.Violate("encode-error", "lossless Encode failed", map[string]any{"spec": s, "err": err.Error()})
+			c.Count("observation:encode-error")
 			continue
 		}
 		_, dec := goDecode(file)
@@ -610,6 +628,11 @@ func cleanupCases(c *Ctx) {
 			e := 0
 			if exact {
 				e = 1
+			}
+			if !exact && p.A == 0 && g == p {
+				// permitted as well: the pixel came back unchanged; canonical form of the accepted outcomes
+				g = color.NRGBA{}
+				c.Count("observation:alpha-0-pixel-came-back-unchanged-without-Exact")
 			}
 			c.Case(fmt.Sprintf("imp %d %d %d %d %d", e, p.A, p.R, p.G, p.B), fmt.Sprintf("%d %d %d %d", g.A, g.R, g.G, g.B))
 			c.D.Evaluations++
